@@ -291,6 +291,18 @@ func registerFrames() {
 			}
 			c.Line("frames", hx(encTree(tt, true)), "ok:"+hx(tres.enc))
 			c.Count("template")
+			// every third tree also with its function bodies inside range statements
+			// (the bodies of range statements run in a nested call of the VM: runBody)
+			if c.Rng.Intn(3) == 0 {
+				rsrc := programRangeSource(t)
+				rres := runProgramTree(rsrc)
+				if rres.buildErr != "" {
+					c.Fail("generator-build-error", map[string]string{"source": rsrc, "error": rres.buildErr})
+					return
+				}
+				c.Line("frames", hx(encTree(t, true)), "ok:"+hx(rres.enc))
+				c.Count("program_in_range")
+			}
 			c.Count(fmt.Sprintf("outcome_%d", outcomeCode(res.enc)))
 		})
 	})
@@ -323,6 +335,16 @@ func registerFrames() {
 			reqs = append(reqs, "gospec\t"+fl[1].treeHx)
 			mreqs = append(mreqs, "frames\t"+fl[1].treeHx)
 			all = append(all, fl)
+			// function bodies inside range statements (nested calls of the VM: runBody), compared on the outcome
+			// without lines against the program flavour
+			if len(all)%3 == 0 {
+				rsrc := programRangeSource(t)
+				c.Count("evaluations")
+				if rres := runProgramTree(rsrc); rres.buildErr != "" || !bytes.Equal(rres.noLines, fl[0].res.noLines) {
+					c.Fail("range-body-changes-the-outcome", map[string]string{"tree": hx(encTree(t, false)), "source": rsrc,
+						"in_range": hx(rres.noLines), "plain": hx(fl[0].res.noLines), "build_error": rres.buildErr, "host_panic": rres.hostMsg})
+				}
+			}
 		}
 		want, err := modelDriver(reqs)
 		if err != nil {
